@@ -6,6 +6,7 @@ import Mrpro.Model.CG
 import Mrpro.Model.Functional
 import Mrpro.Model.PowerIter
 import Mrpro.Model.Signal
+import Mrpro.Model.Resample
 open Lean M M.Proto
 
 def getTrajComp (j : Json) (k : String) : Except String TrajComp := do
@@ -273,6 +274,18 @@ def handle (j : Json) : Except String Json := do
       let xs ← getFloats j "x"
       pure (Json.mkObj [("out", floatsJson (xs.map (fun x => if inv then constrainInv bs bp lb ub x else constrainFwd bs bp lb ub x))),
                         ("case", Json.num (JsonNumber.fromNat (boundCase lb ub)))])
+  | "find_width" =>
+      let grid ← getRats j "grid"; let prof ← getRats j "prof"
+      pure (Json.mkObj [("w", Json.num (JsonNumber.fromNat (findWidthOn grid prof)))])
+  | "interp" =>
+      let align ← getBool j "align_corners"; let nearest ← getBool j "nearest"
+      let shape ← getNats j "shape"
+      let img := (← getRats j "img").toArray
+      let pts ← j.getObjValAs? (Array (Array String)) "points"
+      let outs ← pts.toList.mapM (fun p => match p.toList.mapM parseRat with
+        | some c => pure (interpND align nearest shape (fun i => img.getD i 0) c)
+        | none => throw "point")
+      pure (Json.mkObj [("out", ratsJson outs)])
   | "norm_dims" =>
       let ndim ← getNat j "ndim"; let dims ← getInts j "dims"
       pure (match dims.mapM (normIndex ndim) with
